@@ -47,7 +47,7 @@ CLAIMED["C08"] = dict(
     technique="property-based testing (proptest) against an RFC 8032 reference model; round trip through all verifiers",
     design="3/C08")
 CLAIMED["C09"] = dict(
-    text="Generated adversarial triples against the documented acceptance predicate evaluated on the integer model, both directions, for eight verification entry points: S+k*l / l / high bits, all 14 accepted encodings of the 8 torsion points as key and as R with the message searched until the cofactorless equation holds, mixed-order keys with messages searched for k*T=O, small-order R under honest keys, undecodable / non-canonical / arbitrary R and A, prehashed with contexts; default and legacy_compatibility builds (legacy S rule in the model), serial32, simd, avx512. Exploration level.",
+    text="Generated adversarial triples against the documented acceptance predicate evaluated on the integer model, both directions, for eight verification entry points: S+k*l / l / high bits, all 14 accepted encodings of the 8 torsion points as key and as R with the message searched until the cofactorless equation holds, mixed-order keys with messages searched for k*T=O, small-order R under honest keys, undecodable / non-canonical / arbitrary R and A, prehashed with contexts; default and legacy_compatibility builds (legacy S rule in the model), serial32, simd, avx512. Thorough tier adds a coverage-guided libFuzzer target (fz_verify, ASan, model predicate inside the target). Exploration level.",
     note="Trusts the reference model. Contexts longer than 255 bytes are outside the documented domain of the prehashed verifiers (debug_assert) and are not sent to them.",
     technique="property-based testing (proptest) with model-solved adversarial inputs; predicate oracle in both directions",
     design="3/C09")
@@ -67,12 +67,12 @@ CLAIMED["C11"] = dict(
     technique="property-based testing at contract boundaries: raw-limb generators, metamorphic representation independence, run-time bound monitors, checked-vs-release differential",
     design="3/C11")
 CLAIMED["C15"] = dict(
-    text="Generated untrusted input into every decoding/verifying entry point in release builds (three back ends quick, eight builds thorough): slices of every length, array decoders, hash-to-group/scalar with chosen (pass-through digest) and solved-for exceptional Elligator inputs, X25519 and the birational conversions with every sign byte, all verifiers on adversarial and arbitrary triples incl. contexts > 255 bytes, batch verification on arbitrary/mismatched input, keypair import, serde deserialisers on structured and raw payloads, GroupEncoding; oracle: never a panic, and None/Err exactly where the models say malformed. Exploration level.",
+    text="Generated untrusted input into every decoding/verifying entry point in release builds (three back ends quick, eight builds thorough): slices of every length, array decoders, hash-to-group/scalar with chosen (pass-through digest) and solved-for exceptional Elligator inputs, X25519 and the birational conversions with every sign byte, all verifiers on adversarial and arbitrary triples incl. contexts > 255 bytes, batch verification on arbitrary/mismatched input, keypair import, serde deserialisers on structured and raw payloads, GroupEncoding; oracle: never a panic, and None/Err exactly where the models say malformed. Thorough tier adds the coverage-guided libFuzzer target fz_untrusted (ASan, oracle inside the target, seed corpus generated from the structured generators). Exploration level.",
     note="A hang would be reported as exit 2 (watchdog), never as a violation. Trusts the reference models of C03/C06/C07/C09/C13/C16/C17.",
     technique="property-based testing / fuzzing with structured and raw byte generators; totality + model oracle",
     design="3/C15")
 CLAIMED["C16"] = dict(
-    text="All 11 serialisable types x {bincode, serde_json} (serde feature, never compiled by the baseline): serialised bytes must equal the canonical encoding exactly, deserialize(serialize(v)) = v, and Deserialize succeeds iff the native decoder accepts the same bytes - fed right-length valid/invalid (non-canonical scalar, undecodable Edwards/Ristretto), short, over-long, malformed JSON shapes and raw wire bytes. Exploration level.",
+    text="All 11 serialisable types x {bincode, serde_json} (serde feature, never compiled by the baseline): serialised bytes must equal the canonical encoding exactly, deserialize(serialize(v)) = v, and Deserialize succeeds iff the native decoder accepts the same bytes - fed right-length valid/invalid (non-canonical scalar, undecodable Edwards/Ristretto), short, over-long, malformed JSON shapes (incl. a valid prefix followed by one unparsable trailing element) and raw wire bytes; saved inputs of the repaired finding are replayed on every run; thorough tier adds the libFuzzer target fz_untrusted, which found that finding. Exploration level.",
     note="Trailing bytes after a complete bincode value are the format's concern and are not generated/asserted.",
     technique="property-based testing: round trip + model-predicted accept/reject per payload shape",
     design="3/C16")
@@ -82,9 +82,9 @@ CLAIMED["C17"] = dict(
     technique="property-based testing against a reference model / field axioms",
     design="3/C17")
 CLAIMED["C10"] = dict(
-    text="Metamorphic search over generated secrets: 24 operations not documented as variable-time run in release binaries WITHOUT hooks (five back ends quick; plus table-less builds thorough), once per secret (extreme nibble/byte patterns that drive table lookups to their ends plus proptest-generated structured secrets), under valgrind --tool=lackey --trace-mem=yes; the complete sequence of instruction addresses and load/store addresses+sizes between two marker stores must be byte-identical across all secrets of an (operation, back end) pair. A deliberately variable-time control operation must be seen to differ, otherwise the run is inconclusive (exit 2). Exploration level for this compiler's output.",
-    note="Valgrind 3.19 has no AVX-512: IFMA code is not traced (the dispatcher falls back to AVX2 under valgrind). Trace equality on sampled secrets is not a proof; timing channels that are neither control-flow nor address dependent are out of scope.",
-    technique="metamorphic testing on execution traces (valgrind lackey) over generated secrets",
+    text="Metamorphic search over generated secrets: 24 operations not documented as variable-time run in release binaries WITHOUT hooks (five back ends quick; plus table-less builds thorough), once per secret (extreme nibble/byte patterns that drive table lookups to their ends plus proptest-generated structured secrets), under valgrind --tool=lackey --trace-mem=yes; the complete sequence of instruction addresses and load/store addresses+sizes between two marker stores must be byte-identical across all secrets of an (operation, back end) pair. The AVX-512 IFMA back end, which valgrind cannot execute, is observed by native ptrace single-stepping (sequence of instruction pointers inside the marked region) for the operations that dispatch to it. A deliberately variable-time control operation must be seen to differ under both tracers, otherwise the run is inconclusive (exit 2). Exploration level for this compiler's output.",
+    note="IFMA: instruction addresses only (data addresses are not observed there). Trace equality on sampled secrets is not a proof; timing channels that are neither control-flow nor address dependent are out of scope.",
+    technique="metamorphic testing on execution traces (valgrind lackey; ptrace single-stepping for IFMA) over generated secrets",
     design="3/C10")
 CLAIMED["C14"] = dict(
     text="Generated create-use-drop sequences and calls under an instrumenting global allocator: (i) the contents of every heap block freed during constant-time multiscalar_mul (Edwards/Ristretto, n = 1..40 quick / 300 thorough, serial and vector copies via forced dispatch) and Scalar::batch_invert must be identical for two different secret-scalar vectors and contain no 8-byte window of the scalars, their radix-16 digit strings or partial products; (ii) SigningKey, ExpandedSecretKey, Ephemeral/Reusable/StaticSecret, SharedSecret are built in storage the harness owns, used, drop_in_place'd, and the storage searched for secret windows; (iii) explicit zeroize() results. Exploration level.",
@@ -125,6 +125,8 @@ def main():
             "add_only": True,
         },
         "engines": [
+            {"name": "fuzz", "path": "/verif/fuzz", "serves_properties": ["C09", "C15", "C16"],
+             "kind_free_text": "cargo-fuzz / libFuzzer targets (nightly, ASan) whose oracle is inside the target; thorough tiers only"},
             {"name": "harness", "path": "/verif/harness", "serves_properties": sorted(CLAIMED.keys()),
              "kind_free_text": "Rust driver (proptest runner, reference model, request executors) built once per back-end/feature configuration by /verif/check, which fans runs out over the cores and merges evidence"},
         ],
